@@ -135,3 +135,61 @@ def replay_runs(sc, worlds, steps, repo='/repo'):
     finally:
         shutil.rmtree(root, ignore_errors=True)
     return obs
+
+
+def frame_probe(sc, repo='/repo'):
+    """Which files does the real code mutate?  The binary runs under strace on a concrete tree of the scenario (first build; unchanged
+    second run; second run with the own record overwritten by garbage), with a sibling target's record in place.  Returns the
+    mutated paths (relative to the project) outside {own record, creation of the work directory} and whether the sibling record survived."""
+    import re
+    import subprocess
+    binpath, info = build_native(repo)
+    root = tempfile.mkdtemp(prefix='zx-frame-', dir=os.environ.get('VERIF_SCRATCH', '/var/tmp'))
+    out = {'foreign_mutations': [], 'sibling_survived': True, 'runs': []}
+    try:
+        write_project(root, sc)
+        files = {}
+        for paths, exts in sc.in_files + sc.out_files:
+            for p in paths:
+                files[p] = None
+        for p in sc.paths:
+            if p.endswith('.checksums') or p.endswith('/.zinoma') or not p.startswith('/p/'):
+                continue
+            if any(q != p and q.startswith(p + '/') for q in sc.paths):
+                os.makedirs(root + p, exist_ok=True)
+            else:
+                os.makedirs(os.path.dirname(root + p), exist_ok=True)
+                open(root + p, 'w').write('x')
+        for c, d in sc.in_cmds + sc.out_cmds:
+            os.makedirs(root + d, exist_ok=True)
+            open(os.path.join(root + d, 'zxctl_%s.out' % c), 'w').write('1')
+            open(os.path.join(root + d, 'zxctl_%s.rc' % c), 'w').write('0')
+        os.makedirs(root + '/p/.zinoma', exist_ok=True)
+        sib = root + '/p/.zinoma/other.checksums'
+        open(sib, 'wb').write(b'sibling record')
+        own = '/p/.zinoma/t.checksums'
+        for variant in ('first', 'unchanged', 'garbage_record'):
+            if variant == 'garbage_record':
+                open(root + own, 'wb').write(b'Lorem ipsum dolor sit amet')
+            logf = os.path.join(root, 'strace.%s' % variant)
+            env = dict(os.environ, ZX_LOG=os.path.join(root, 'zxlog.%s' % variant))
+            cmd = ['strace', '-f', '-qq', '-e', 'trace=openat,open,creat,rename,renameat,renameat2,unlink,unlinkat,rmdir,mkdir,mkdirat', '-o', logf,
+                   'timeout', '-k', '2', '60', binpath, '-p', root + '/p', 't']
+            r = subprocess.run(cmd, env=env, capture_output=True, text=True)
+            muts = set()
+            for l in open(logf, errors='replace'):
+                if ' = -1 ' in l and 'rename' not in l:
+                    continue
+                for m in re.finditer(r'"(%s/p/[^"]*)"' % re.escape(root), l):
+                    pth = m.group(1)[len(root):]
+                    writing = ('O_WRONLY' in l or 'O_RDWR' in l or 'O_CREAT' in l or 'O_TRUNC' in l) if 'open' in l.split('(')[0] else True
+                    if writing:
+                        muts.add((l.split('(')[0].split()[-1], pth))
+            foreign = sorted((op, pth) for op, pth in muts if not (pth == own or (pth == '/p/.zinoma' and op.startswith('mkdir'))))
+            out['runs'].append({'variant': variant, 'rc': r.returncode, 'mutations': sorted(muts), 'foreign': foreign})
+            out['foreign_mutations'] += foreign
+            if not os.path.exists(sib):
+                out['sibling_survived'] = False
+        return out
+    finally:
+        shutil.rmtree(root, ignore_errors=True)
